@@ -14,8 +14,52 @@ def nontrivial(prog, w, comp, walks):
     return has_transfer and (_prog.moved_labels(prog, w) > 0 or 'dist>=2K' in prog.tags)
 
 
+def parse_label_file(text):
+    import re
+    out = {}
+    for ln in text.splitlines():
+        m = re.fullmatch(r'\s*(\S+?)[\s:=,]+(-?(?:0[xX][0-9a-fA-F]+|\d+))\s*', ln)
+        if not m or m.group(1) in out:
+            return None
+        out[m.group(1)] = int(m.group(2), 0) if not m.group(2).lstrip('-').isdigit() else int(m.group(2))
+    return out
+
+
 def judge(prog, res):
-    _prog.judge_walk(prog, res, PROP, OWNED, (False, True), nontrivial)
+    walks = _prog.judge_walk(prog, res, PROP, OWNED, (False, True), nontrivial)
+    # the -l file of the command line is the same label table: one program in eight also goes through cli_main (in-process)
+    src = prog.text()
+    if env.chash(src)[1] % 8 == 0:
+        import os
+        import sys
+        from vlib import ir, progcheck
+        a = _prog.get_asm()
+        for comp in (False, True):
+            if walks.get(comp) is None or walks[comp][0].discs:
+                continue
+            w = walks[comp][0]
+            with env.scratch_dir('bbv-c03-') as d:
+                with open(os.path.join(d, 'p.asm'), 'w', encoding='utf-8') as f:
+                    f.write(src)
+                old = sys.argv
+                sys.argv = ['bronzebeard'] + (['-c'] if comp else []) + ['-o', os.path.join(d, 'p.bin'), '-l', os.path.join(d, 'p.labels'), os.path.join(d, 'p.asm')]
+                try:
+                    with env.quiet_stdio():
+                        try:
+                            a.cli_main()
+                            code = 0
+                        except SystemExit as ex:
+                            code = ex.code if isinstance(ex.code, int) else (0 if ex.code is None else 1)
+                        except Exception as ex:
+                            code = 'raised %s' % type(ex).__name__
+                finally:
+                    sys.argv = old
+                text = open(os.path.join(d, 'p.labels')).read() if os.path.exists(os.path.join(d, 'p.labels')) else None
+            res.count('cli_label_files')
+            table = parse_label_file(text) if text is not None else None
+            if code != 0 or table != w.labels:
+                raise env.CaseFailure('label_table:cli:%s' % ('c' if comp else 'u'), 'the -l file (exit %r) lists %r, the first byte after each label is at %r\n%s' % (
+                    code, table if table is not None else text, w.labels, src[:600]), progcheck.case_of(prog, comp))
 
 
 def run(tier):
